@@ -1,0 +1,49 @@
+//go:build verif
+
+// Contracts for property C01: the subset comparisons (<) (>) (<=) (>=) (<>) (<>=) and `<:` (expr_set_compare.go,
+// compareOps in compile.go) against the denotation mem2 (35_sets.spec). Worker x-c01. Comments only.
+package syntax
+
+// subEq(s, t): every member of s is a member of t.  scard = number of distinct members (meaning of Set.Count, C01).
+// For finite sets: s is a proper subset of t  <=>  s ⊆ t and |s| < |t|;  s ⊆ t  <=>  s ⊆ t and |s| <= |t|.
+// The clauses below are stated in that form: what is PROVED is that the enumeration loop tests every member of the
+// left operand against the right one (nothing skipped, no early answer) and that the cardinality test is the strict /
+// non-strict one the operator needs. The cardinality facts themselves (|s| <= |t| for s ⊆ t, |t| = 0 iff t is empty) are
+// not used: scard is axiomatised per representation only (35_sets.smt2).
+//@ spec subEq(s, t) = forall x: Val :: mem2(s, x) ==> mem2(t, x)
+//@ spec properSub(s, t) = subEq(s, t) && scard(s) < scard(t)
+
+// a (<) b.  The unchecked assertions a.(rel.Set) / b.(rel.Set) (safe.assert#0/#1) fail for a non-set operand: finding.
+//@ func subset(a, b)
+//@   tags C01, C10
+//@   assigns fresh-only
+//@   modifies rel.arrayValueEnumerator, enset, enseen, encur, enord, enpos      // enord/enpos: 72_order2.spec (ordinary ghosts there)
+//@   requires nn: a != nil && b != nil
+//@   ensures[C01] proper: a is rel.Set && b is rel.Set ==> (result <==> properSub(a, b))
+//@   loop 0 invariant en: e != nil && enset[e] == a && (forall x: Val :: enseen[e][x] ==> mem2(b, x))
+
+// a (<=) b
+//@ func subsetOrEqual(a, b)
+//@   tags C01, C10
+//@   assigns fresh-only
+//@   modifies rel.arrayValueEnumerator, enset, enseen, encur, enord, enpos      // enord/enpos: 72_order2.spec (ordinary ghosts there)
+//@   requires nn: a != nil && b != nil
+//@   ensures[C01] sub: a is rel.Set && b is rel.Set ==> (result <==> (scard(b) == 0 ? scard(a) == 0 : (subEq(a, b) && scard(a) <= scard(b))))
+//@   loop 0 invariant en: e != nil && enset[e] == a && (forall x: Val :: enseen[e][x] ==> mem2(b, x))
+
+// a (<>) b: one is a proper subset of the other (Equal operands have the same count: 35_sets.smt2, so the extra
+// !a.Equal(b) of the code changes nothing)
+//@ func subsetOrSuperset(a, b)
+//@   tags C01, C10
+//@   assigns fresh-only
+//@   modifies rel.arrayValueEnumerator, enset, enseen, encur, enord, enpos      // enord/enpos: 72_order2.spec (ordinary ghosts there)
+//@   requires nn: a != nil && b != nil
+//@   ensures[C01] either: a is rel.Set && b is rel.Set ==> (result <==> (properSub(a, b) || properSub(b, a)))
+
+// a (<>=) b
+//@ func subsetSupersetOrEqual(a, b)
+//@   tags C01, C10
+//@   assigns fresh-only
+//@   modifies rel.arrayValueEnumerator, enset, enseen, encur, enord, enpos      // enord/enpos: 72_order2.spec (ordinary ghosts there)
+//@   requires nn: a != nil && b != nil
+//@   ensures[C01] either: a is rel.Set && b is rel.Set ==> (result <==> (properSub(a, b) || properSub(b, a) || eq(a, b)))
